@@ -102,6 +102,13 @@ SEED_FENS = {
  'mated_in_1': '7k/8/5K2/6Q1/8/8/8/8 b - - 0 1',
  'mate_in_2': 'r5rk/5p1p/5R2/4B3/8/8/7P/7K w - - 0 1',
  'kq_k': '8/8/8/3k4/8/8/8/QK6 w - - 0 1',
+ 'smother': '6rk/6pp/8/6N1/8/8/8/7K w - - 0 1',
+ 'promo_mate': '7k/4P2p/6K1/8/8/8/8/8 w - - 0 1',
+ 'kq_mate1': '7k/8/5K2/8/8/8/8/6Q1 w - - 0 1',
+ 'kr_mate1': 'k7/8/1K6/8/8/8/8/7R w - - 0 1',
+ 'kr_mate2': '1k6/8/1K6/8/8/8/8/7R w - - 0 1',
+ 'kq_mated2': '6k1/8/5K2/8/8/8/8/4Q3 b - - 0 1',
+ 'backrank_b': 'r6k/8/8/8/8/8/5PPP/6K1 b - - 0 1',
  'kr_k': '8/8/8/3k4/8/8/8/RK6 b - - 3 40',
  # many moves / many queens
  'max218': 'R6R/3Q4/1Q4Q1/4Q3/2Q4Q/Q4Q2/pp1Q4/kBNN1KB1 w - - 0 1',
